@@ -1,6 +1,7 @@
 package main
 
 import (
+	"runtime"
 	"bufio"
 	"bytes"
 	"context"
@@ -282,6 +283,17 @@ func Discharge(results []*FnResult, opts DischargeOpts) (stats map[string]int, s
 	stats = map[string]int{}
 	byBackend = map[string]int{}
 	os.MkdirAll(opts.WorkDir, 0o755)
+	// a machine that is already busy (other checks running beside this one) gets fewer workers and a longer budget,
+	// so that load does not turn proofs into time-outs
+	if f := loadFactor(); f > 1 {
+		opts.Timeout = time.Duration(float64(opts.Timeout) * f)
+		if w := int(float64(opts.Workers) / f); w >= 4 {
+			opts.Workers = w
+		} else {
+			opts.Workers = 4
+		}
+		fmt.Fprintf(os.Stderr, "govc: machine busy (load factor %.1f): %d workers, solver budget %s\n", f, opts.Workers, opts.Timeout)
+	}
 	var jobs []job
 	for _, fr := range results {
 		if fr.Ctx == nil {
@@ -399,7 +411,7 @@ func Discharge(results []*FnResult, opts DischargeOpts) (stats map[string]int, s
 			late = append(late, ji)
 		}
 	}
-	if n := len(late); n > 0 && n <= 24 && os.Getenv("GOVC_NORESCUE") == "" {
+	if n := len(late); n > 0 && n <= 64 && os.Getenv("GOVC_NORESCUE") == "" {
 		rsem := make(chan struct{}, 3)
 		for _, ji := range late {
 			wg.Add(1)
@@ -514,4 +526,24 @@ func sanitizeFile(s string) string {
 		s = s[:120]
 	}
 	return s
+}
+
+// loadFactor is the 1-minute load average divided by the number of CPUs, clamped to [1, 4].
+func loadFactor() float64 {
+	b, err := os.ReadFile("/proc/loadavg")
+	if err != nil {
+		return 1
+	}
+	var l1 float64
+	if _, err := fmt.Sscanf(string(b), "%f", &l1); err != nil {
+		return 1
+	}
+	f := l1 / float64(runtime.NumCPU())
+	if f < 1 {
+		return 1
+	}
+	if f > 4 {
+		return 4
+	}
+	return f
 }
